@@ -37,10 +37,8 @@ static void expand(size_t c, bool to_top, std::vector<size_t>& out) {
   out = cur; }
 static long total_cases = 0, bad = 0; static std::string firsts;
 static void fail(const std::string& w) { if (bad < 3) firsts += std::string(firsts.empty() ? "" : ",") + "{\"case\":\"" + w + "\"}"; ++bad; }
-template <class CC> static void check(CC& cc, const std::vector<double>& in, bool top, const std::string& tag) {
-  ++total_cases; size_t n = total(); std::string why;
-  // input cells in the order the constructor reads them = increasing bitmap position
-  std::vector<size_t> cells; for (size_t c = 0; c < n; c++) { bool all = true; for (unsigned i = 0; i < Dm; i++) all = all && ((coord(c, i) % 2 == 1) == top); if (all) cells.push_back(c); }
+template <class CC> static std::string validate(CC& cc, const std::vector<double>& in, bool top, const std::vector<size_t>& cells) {
+  size_t n = total(); std::string why;
   std::vector<double> val(n); for (size_t k = 0; k < cells.size(); k++) val[cells[k]] = in[k];
   for (size_t c = 0; c < n && why.empty(); c++) { std::vector<size_t> cl; expand(c, top, cl); double want = top ? INF : -INF;
     for (size_t x : cl) want = top ? std::min(want, val[x]) : std::max(want, val[x]);
@@ -49,7 +47,21 @@ template <class CC> static void check(CC& cc, const std::vector<double>& in, boo
     for (auto sh : cc.filtration_simplex_range()) { if (sh >= n || rank[sh] != -1) { why = "filtration range repeats or leaves the complex"; break; } rank[sh] = r++; double f = cc.filtration(sh); if (f < prev) { why = "filtration decreases at rank " + std::to_string(r); break; } prev = f; }
     if (why.empty() && (size_t)r != n) why = "filtration range lists " + std::to_string(r) + " of " + std::to_string(n) + " cells";
     for (size_t c = 0; c < n && why.empty(); c++) for (auto b : cc.get_boundary_of_a_cell(c)) if (rank[b] > rank[c]) { why = "face " + std::to_string(b) + " comes after its coface " + std::to_string(c); break; } }
-  if (!why.empty()) fail(tag + ": " + why); }
+  return why; }
+template <class CC> static void check(CC& cc, const std::vector<double>& in, bool top, const std::string& tag) {
+  ++total_cases; size_t n = total();
+  // input cells in the order the constructor reads them = increasing bitmap position
+  std::vector<size_t> cells; for (size_t c = 0; c < n; c++) { bool all = true; for (unsigned i = 0; i < Dm; i++) all = all && ((coord(c, i) % 2 == 1) == top); if (all) cells.push_back(c); }
+  std::string why = validate(cc, in, top, cells);
+  if (!why.empty()) { fail(tag + ": " + why); return; }
+  // same object, second life: new values on the input cells, lower-star filtration imposed again, order refreshed explicitly
+  ++total_cases; std::vector<double> in2(in.rbegin(), in.rend());
+  for (size_t c = 0; c < n; c++) cc.get_cell_data(c) = top ? INF : -INF;
+  for (size_t k = 0; k < cells.size(); k++) cc.get_cell_data(cells[k]) = in2[k];
+  if (top) cc.impose_lower_star_filtration(); else cc.impose_lower_star_filtration_from_vertices();
+  cc.initialize_filtration();
+  why = validate(cc, in2, top, cells);
+  if (!why.empty()) fail(tag + ": after new values + impose_lower_star_filtration" + (top ? "" : "_from_vertices") + "() + initialize_filtration() on the same object: " + why); }
 static void run_shape(std::vector<unsigned> shape, std::vector<bool> mask, bool periodic, unsigned long long& rng, int samples) {
   S = shape; Dm = shape.size(); P = periodic ? mask : std::vector<bool>(Dm, false);
   auto nextr = [&]() { rng ^= rng << 13; rng ^= rng >> 7; rng ^= rng << 17; return rng; };
